@@ -531,6 +531,15 @@ CTOR_PROGRAM = '''type Email = newtype str:
     def make_raw(s: str) -> Email:
         return Email(s)
 
+type Name = newtype str:
+    def from_underlying(s: str) -> Result[Name, str]:
+        if len(s) > 100:
+            return Err("too long")
+        return Ok(Name(s))
+
+    def to_email(s: str) -> Email:
+        return Email(s)
+
 model Pair:
     a: int
     b: int
@@ -540,6 +549,12 @@ def build(s: str) -> Email:
 
 def pair(x: int, y: int) -> Pair:
     return Pair(a=x, b=y)
+
+def _twice(v: int) -> int:
+    return v * 2
+
+def use_helper(n: int) -> int:
+    return _twice(v=n)
 '''
 
 
@@ -556,12 +571,15 @@ def native_ctor(r, why, log_dir):
         src = re.sub(r"\s+", "", out)
         m_build = re.search(r"fnbuild\(s:String\)->Email\{(.*?)\}fn", src)
         m_raw = re.search(r"fnmake_raw\(s:String\)->Email\{(.*?)\}", src)
+        m_other = re.search(r"fnto_email\(s:String\)->Email\{(.*?)\}\s*(?:pub)?(?:fn|\}|impl|#)", src)
         ok = ("RUST-END" in out and m_build is not None and "Email::from_underlying(" in m_build.group(1) and ".expect(" in m_build.group(1)
-              and m_raw is not None and "from_underlying" not in m_raw.group(1) and re.search(r"Pair\{a:x,b:y,?\}", src) is not None)
+              and m_raw is not None and "from_underlying" not in m_raw.group(1) and re.search(r"Pair\{a:x,b:y,?\}", src) is not None
+              and m_other is not None and "Email::from_underlying(" in m_other.group(1)
+              and "return_twice(n)" in src.replace("n.clone()", "n"))
         if not ok:
             broken = True
-            texts.append(f"[{prof}] build(): {m_build.group(1)[:120] if m_build else None}; make_raw(): {m_raw.group(1)[:80] if m_raw else None}; ...{out.strip()[-200:] if 'RUST-END' not in out else ''}")
-    text = "; ".join(texts) or "Email(s) outside the type goes through from_underlying(..).expect(..), inside its own method it stays plain, Pair(a=x, b=y) is a struct literal"
+            texts.append(f"[{prof}] build(): {m_build.group(1)[:120] if m_build else None}; make_raw(): {m_raw.group(1)[:80] if m_raw else None}; Name.to_email(): {m_other.group(1)[:120] if m_other else None}; ...{out.strip()[-200:] if 'RUST-END' not in out else ''}")
+    text = "; ".join(texts) or "Email(s) outside the type - also inside ANOTHER validated newtype's method - goes through from_underlying(..).expect(..), inside its own method it stays plain, Pair(a=x, b=y) is a struct literal"
     r["native"] = text
     if broken:
         os.makedirs(os.path.join(common.REPLAYS_DIR, "MIRX"), exist_ok=True)
